@@ -13,5 +13,5 @@ for f in sys.argv[1:]:
         print(json.dumps({k:v for k,v in c.items() if k!='pickle'}, indent=1)[:3000] if isinstance(c, dict) else c)
     w=d['detail'].get('window') if isinstance(d['detail'], dict) else None
     if w:
-        print("EXP", w['expected']); print("OBS", w['observed'])
+        [print(k, w[k]) for k in w]
     else: print(json.dumps({k:v for k,v in d['detail'].items() if k!='window'}, default=str)[:3000])
